@@ -420,132 +420,62 @@ PPL::Grid::relation_with(const Congruence& cg) const {
   // 'strictly_intersects'   a strict subset of the grid points satisfy cg
   // 'is_included'           every grid point satisfies cg
   // 'is_disjoint'           cg and the grid occupy separate spaces.
-  // There is always a point.
-  // Scalar product of the congruence and the first point that
-  // satisfies the congruence.
-  PPL_DIRTY_TEMP_COEFFICIENT(point_sp);
-  point_sp = 0;
-
-  PPL_DIRTY_TEMP_COEFFICIENT(div);
-  div = cg.modulus();
-
+  //
+  // There is always a point.  Let p0 be the first point: the grid is
+  // p0 + L, where the lattice of directions L is generated by the
+  // parameters, the differences p - p0 and the lines.  All points and
+  // parameters share one divisor d (see normalize_divisors()) and
+  // scalar products are computed on the numerators, so they have to
+  // be compared modulo `modulus * d'.  With
+  //   div = gcd(modulus * d, <cg, u> for the generators u of L)
+  // the grid meets cg iff <cg, p0> is a multiple of div, and is
+  // included in cg iff moreover div == modulus * d, i.e., every
+  // direction is congruent to zero.  (For an equality div is zero iff
+  // all the directions are orthogonal to cg.)
   PPL_DIRTY_TEMP_COEFFICIENT(sp);
+  PPL_DIRTY_TEMP_COEFFICIENT(point_sp);
+  PPL_DIRTY_TEMP_COEFFICIENT(full_div);
+  PPL_DIRTY_TEMP_COEFFICIENT(div);
 
-  bool known_to_intersect = false;
+  Grid_Generator_System::const_iterator first_point = gen_sys.begin();
+  while (!first_point->is_point()) {
+    ++first_point;
+    PPL_ASSERT(first_point != gen_sys.end());
+  }
+  Scalar_Products::assign(point_sp, cg, *first_point);
+  full_div = cg.modulus() * first_point->divisor();
+  div = full_div;
 
   for (Grid_Generator_System::const_iterator i = gen_sys.begin(),
          i_end = gen_sys.end(); i != i_end; ++i) {
     const Grid_Generator& g = *i;
     Scalar_Products::assign(sp, cg, g);
-
-    switch (g.type()) {
-
-    case Grid_Generator::POINT:
-      if (cg.is_proper_congruence()) {
-        sp %= div;
-      }
-      if (sp == 0) {
-        // The point satisfies the congruence.
-        if (point_sp == 0) {
-          // Any previous points satisfied the congruence.
-          known_to_intersect = true;
-        }
-        else {
-          return Poly_Con_Relation::strictly_intersects();
-        }
-      }
-      else {
-        if (point_sp == 0) {
-          if (known_to_intersect) {
-            return Poly_Con_Relation::strictly_intersects();
-          }
-          // Assign `sp' to `point_sp' as `sp' is the scalar product
-          // of cg and a point g and is non-zero.
-          point_sp = sp;
-        }
-        else {
-          // A previously considered point p failed to satisfy cg such that
-          // `point_sp' = `scalar_prod(p, cg)'
-          // so, if we consider the parameter g-p instead of g, we have
-          // scalar_prod(g-p, cg) = scalar_prod(g, cg) - scalar_prod(p, cg)
-          //                      = sp - point_sp
-          sp -= point_sp;
-
-          if (sp != 0) {
-            // Find the GCD between sp and the previous GCD.
-            gcd_assign(div, div, sp);
-            if (point_sp % div == 0) {
-              // There is a point in the grid satisfying cg.
-              return Poly_Con_Relation::strictly_intersects();
-            }
-          }
-        }
-      }
-      break;
-
-    case Grid_Generator::PARAMETER:
-      if (cg.is_proper_congruence()) {
-        sp %= (div * g.divisor());
-      }
-      if (sp == 0) {
-        // Parameter g satisfies the cg so the relation depends
-        // entirely on the other generators.
-        break;
-      }
-      if (known_to_intersect) {
-        // At least one point satisfies cg.  However, the sum of such
-        // a point and the parameter g fails to satisfy cg (due to g).
+    if (g.is_line()) {
+      if (sp != 0) {
+        // The line crosses every hyperplane of cg: some points of the
+        // grid satisfy cg and some do not.
         return Poly_Con_Relation::strictly_intersects();
       }
-      // Find the GCD between sp and the previous GCD.
-      gcd_assign(div, div, sp);
-      if (point_sp != 0) {
-        // At least one of any previously encountered points fails to
-        // satisfy cg.
-        if (point_sp % div == 0) {
-          // There is also a grid point that satisfies cg.
-          return Poly_Con_Relation::strictly_intersects();
-        }
-      }
-      break;
-
-    case Grid_Generator::LINE:
-      if (sp == 0) {
-        // Line g satisfies the cg so the relation depends entirely on
-        // the other generators.
-        break;
-      }
-
-      // Line g intersects the congruence.
-      //
-      // There is a point p in the grid.  Suppose <p*cg> = p_sp.  Then
-      // (-p_sp/sp)*g + p is a point that satisfies cg: <((-p_sp/sp)*g
-      // + p).cg> = -(p_sp/sp)*sp + p_sp) = 0.  If p does not satisfy
-      // `cg' and hence is not in the grid defined by `cg', the grid
-      // `*this' strictly intersects the `cg' grid.  On the other
-      // hand, if `p' is in the grid defined by `cg' so that p_sp = 0,
-      // then <p+g.cg> = p_sp + sp != 0; thus `p+g' is a point in
-      // *this that does not satisfy `cg' and hence `p+g' is a point
-      // in *this not in the grid defined by `cg'; therefore `*this'
-      // strictly intersects the `cg' grid.
-      return Poly_Con_Relation::strictly_intersects();
+      continue;
     }
+    if (g.is_point()) {
+      // Consider the parameter g - p0 instead.
+      sp -= point_sp;
+    }
+    gcd_assign(div, div, sp);
   }
 
-  if (point_sp == 0) {
-    if (cg.is_equality()) {
-      // Every generator satisfied the cg.
-      return Poly_Con_Relation::is_included()
-        && Poly_Con_Relation::saturates();
-    }
-    else {
-      // Every generator satisfied the cg.
-      return Poly_Con_Relation::is_included();
-    }
+  if ((div == 0) ? (point_sp != 0) : (point_sp % div != 0)) {
+    return Poly_Con_Relation::is_disjoint();
   }
-
-  PPL_ASSERT(!known_to_intersect);
-  return Poly_Con_Relation::is_disjoint();
+  if (div != full_div) {
+    return Poly_Con_Relation::strictly_intersects();
+  }
+  if (cg.is_equality()) {
+    return Poly_Con_Relation::is_included()
+      && Poly_Con_Relation::saturates();
+  }
+  return Poly_Con_Relation::is_included();
 }
 
 PPL::Poly_Gen_Relation
